@@ -1,6 +1,7 @@
 package vc
 
 import (
+	"os"
 	"sort"
 	"fmt"
 	"go/token"
@@ -145,6 +146,9 @@ func (e *Exec) RunFunction(fn *ssa.Function) (err error) {
 			if e.clauseUsed["mapdel:"+om.Field+":"+lbl] == 0 {
 				return fmt.Errorf("out of subset: on-map-delete clause %s:%s applies at no delete in %s", om.Field, lbl, FuncName(fn))
 			}
+		}
+		if err := e.confineDone(fn, c); err != nil {
+			return err
 		}
 		for _, ns := range c.NoStores {
 			if !e.noStoreHit[ns] {
@@ -675,6 +679,9 @@ func loopKey(h *ssa.BasicBlock) string {
 func (e *Exec) loopInvariants(fr *Frame, h *ssa.BasicBlock, phis []*ssa.Phi, initVals map[*ssa.Phi]Value, body map[*ssa.BasicBlock]bool, c *Contract, pre *State, ms *ModSet) *loopInfo {
 	li := &loopInfo{header: h, key: loopKey(h)}
 	fr.loopN++
+	if os.Getenv("SLIPVC_DEBUG") == "loops" {
+		fmt.Fprintf(os.Stderr, "loop in %s: key %q named %q\n", FuncName(fr.fn), li.key, loopKeyNamed(h))
+	}
 	add := func(name string, cand bool, ev func(map[*ssa.Phi]Value, *State) *Term) {
 		full := fr.path + li.key + ":" + name
 		if cand {
